@@ -67,8 +67,8 @@ def run (c : Core) : List Step → St → Option St
     else some { s with mem := memSet s.mem zd 0 zn, ret := err }
   | .reject cond err :: ps, s => if cond then some { s with ret := err } else run c ps s
 
-def ERR_BAD_INPUT : Nat := 107
-def ERR_BAD_MAC : Nat := 510
+def ERR_BAD_INPUT : Nat := 109
+def ERR_BAD_MAC : Nat := 511
 def ERR_BAD_KEYTOKEN : Nat := 513
 
 /-! ### The programs: one per C function, statement for statement (after the argument checks
